@@ -138,7 +138,7 @@ mutual
     | .struct fields, v => (match v with
         | .struct vs => HasTypeFieldsE fields vs
         | _ => False)
-    | .named _ _, _ => False
+    | .named _ u, v => HasTypeE u v          -- a declared type without marshal methods: the values of its underlying type
     | .ref _, _ => False
   /-- one value per declared field; an ignored field may hold anything -/
   def HasTypeFieldsE : List (FieldE GoTypeE) → List GoValue → Prop
@@ -193,7 +193,7 @@ mutual
     | .struct fields, v => (match v with
         | .struct vs => .obj (encodeFieldsE (candidates [] 0 fields) [] 0 fields vs)
         | _ => .null)
-    | .named _ _, _ => .null
+    | .named _ u, v => encodeE u v           -- … encoded like its underlying type
     | .ref _, _ => .null
   /-- the members contributed by the struct at index `pre` of the outer struct whose candidates are `all`: the
       dominant fields in index order, without the omitted ones -/
@@ -253,7 +253,7 @@ mutual
             | some b => b                                                        -- the field of exactly that name
             | none => (decodableFindE (candidates [] 0 fields) foldEq [] 0 fields p.1 p.2).getD false   -- else the first one up to case; none: unknown field
         | _ => false)
-    | .named _ _, _ => false
+    | .named _ u, j => decodableE u j        -- … decoded like its underlying type
     | .ref _, _ => false
   /-- the first dominant field (index order) whose JSON name matches the key -/
   def decodableFindE (all : List TField) (m : String → String → Bool) (pre : List Nat) :
